@@ -16,6 +16,7 @@
 //	pl  <seed> <n> <t> <i> <dev>
 //	    a (possibly inconsistent) plaintext deal sealed for recipient i with the package's own
 //	    key derivation; <dev> = none|badshare|T:<v>|Tx:<v>|idx:<k>|nilshare|nilv|noplain|
+//	    Tc:<v> (self-consistent deal of threshold v: v commitments, matching share and session id)|
 //	    clen:<len>|clenc:<len>|sid:<raw|zero|empty|othert|otherc|otherd>|twice
 //
 // Output: "<res> cert=<0|1>" with <res> = ok approve | ok complaint | err <kind> | panic <site>;
@@ -40,7 +41,7 @@ import (
 func init() {
 	h.Register(&h.Prop{
 		ID:         "C08",
-		Rule:       "enc: real EncryptedDeal, presented to every (recipient, opener, believed dealer, believed member list) combination for n<=5 and mutated at byte level (xor masks 01/80/FF at byte positions of all four fields - sampled in quick, every position in thorough -, truncation/extension by 1 and 16, field swaps with a second deal of the same dealer to another recipient / of another dealer / a second deal to the same recipient); pl: plaintext deviations sealed through the hook (bad share, T in {0,1,n+1,2^32-1} with and without matching session id, wrong index, nil share, nil value, empty plaintext, other-length commitments, foreign session ids, same deal twice); non-trivial = anything but the unmodified deal opened by its addressee; distinct = distinct case line",
+		Rule:       "enc: real EncryptedDeal, presented to every (recipient, opener, believed dealer, believed member list) combination for n<=5 and mutated at byte level (xor masks 01/80/FF at byte positions of all four fields - sampled in quick, every position in thorough -, truncation/extension by 1 and 16, field swaps with a second deal of the same dealer to another recipient / of another dealer / a second deal to the same recipient); pl: plaintext deviations sealed through the hook (bad share, T in {0,1,n+1,2^32-1} with and without matching session id, self-consistent deals (T commitments, fitting share and session id) for every T in 0..n+1 and 2n, wrong index, nil share, nil value, empty plaintext, other-length commitments, foreign session ids, same deal twice); non-trivial = anything but the unmodified deal opened by its addressee; distinct = distinct case line",
 		Gen:        gen,
 		Exec:       exec,
 		Exhaustive: func(tier string) bool { return tier == "thorough" },
@@ -435,6 +436,17 @@ func execPl(w []string) (res h.Result) {
 		T, sidT = uint32(v), int(uint32(v))
 	case "Tx": // threshold changed, session id still the one of the original threshold
 		T = uint32(h.BigDec(p[1]).Uint64())
+	case "Tc": // a SELF-CONSISTENT deal for threshold v: fresh polynomial of degree v-1, exactly v
+		// commitments, share = f(i+1), session id computed for exactly these commitments and v
+		v := h.Atoi(p[1])
+		for len(coeffs) < v {
+			coeffs = append(coeffs, dkgnet.NonZero(r))
+		}
+		coeffs = coeffs[:v]
+		commits = dkgnet.Commit(coeffs)
+		sidCommits = commits
+		shareV = dkgnet.Scalar(dkgnet.Eval(coeffs, int64(i)+1))
+		T, sidT = uint32(v), v
 	case "idx":
 		idx = h.Atoi(p[1])
 		shareV = dkgnet.Scalar(dkgnet.Eval(coeffs, int64(idx)+1))
@@ -529,6 +541,8 @@ func execPl(w []string) (res h.Result) {
 	switch {
 	case strings.HasPrefix(out, "panic"):
 		res.Oracle = "panic-" + strings.Fields(out)[1] + ": ProcessEncryptedDeal panicked on a sealed plaintext (" + p[0] + ")"
+	case out == "ok approve" && (int(T) < 2 || int(T) > n):
+		res.Oracle = fmt.Sprintf("approved-invalid-threshold-%s: a deal with T=%d for n=%d members was approved", p[0], T, n)
 	case out == "ok approve" && !ok:
 		res.Oracle = "approved-inconsistent-" + p[0] + ": a deal whose threshold, index or share does not fit its commitments was approved"
 	case out == "ok approve" && twice:
@@ -711,6 +725,10 @@ func gen(tier string, rng *h.Rng, emit func(string)) {
 				for k := 0; k < n+1; k++ {
 					devs = append(devs, fmt.Sprintf("idx:%d", k))
 				}
+				for v := 0; v <= n+1; v++ { // every threshold, valid or not, each with a deal that fits it exactly
+					devs = append(devs, fmt.Sprintf("Tc:%d", v))
+				}
+				devs = append(devs, fmt.Sprintf("Tc:%d", 2*n))
 				devs = append(devs, "idx:-1", "idx:1000000")
 				for _, d := range dedupe2(devs) {
 					emit(fmt.Sprintf("pl %d %d %d %d %s", seed(), n, t, i, d))
